@@ -254,10 +254,10 @@ def run(plan, ch, want_log=False):
         ref = J.refeval_plan(jp)
     from sim.kernel import wall_alarm
     try:
-        with wall_alarm(30):
+        with wall_alarm(120):
             pre = precompute(job)
     except SpinDetected:
-        return dict(harness=NAME, viol=[dict(prop="C03", cls="spin", detail="scheduler.graph.precompute did not return within 30 s of wall time", sig={})],
+        return dict(harness=NAME, viol=[dict(prop="C03", cls="spin", detail="scheduler.graph.precompute did not return within 120 s of wall time", sig={})],
                     probes={}, fired={}, digest="precompute-spin", steps=0, simtime=0.0, stats={}, nontrivial={}, end="spin/precompute", verdict="hang")
     K = Kernel(ch, max_steps=400_000, max_time_ns=3600 * 10**9)
     if want_log:
